@@ -151,9 +151,28 @@ pub struct Handler {
     pub perm_seed: Mutex<Option<u64>>,
     pub perm_calls: Mutex<u64>,
     pub kill: Mutex<Option<Arc<crate::engb::KillCtl>>>,
+    /// Number of injectable file operations seen since the last reset.
+    pub io_calls: std::sync::atomic::AtomicI64,
+    /// Fail the file operation with this index (-1: none).
+    pub io_fail_at: std::sync::atomic::AtomicI64,
+    /// The site at which the failure was injected.
+    pub io_fired: Mutex<Option<String>>,
 }
 
 impl routinator::verif::Handler for Handler {
+    fn buggify(&self, site: &'static str) -> bool {
+        use std::sync::atomic::Ordering;
+        if !(site.starts_with("fatal.") || site.starts_with("store.")) {
+            return false
+        }
+        let n = self.io_calls.fetch_add(1, Ordering::SeqCst);
+        if n == self.io_fail_at.load(Ordering::SeqCst) {
+            *self.io_fired.lock().unwrap() = Some(site.into());
+            return true
+        }
+        false
+    }
+
     fn http(
         &self, req: &routinator::verif::HttpRequest
     ) -> Option<routinator::verif::HttpResponse> {
@@ -236,6 +255,8 @@ pub struct Sim {
     /// Overwrite an RRDP archive with garbage before the next run.
     pub corrupt_archive: bool,
     pub store_fault_now: bool,
+    /// File operations the last regular run performed.
+    pub last_io_calls: i64,
     pub diff_now: bool,
     pub corrupt_now: bool,
     /// Operations apply to this CA instead of a random one.
@@ -317,6 +338,9 @@ impl Sim {
             perm_seed: Mutex::new(None),
             perm_calls: Mutex::new(0),
             kill: Mutex::new(None),
+            io_calls: std::sync::atomic::AtomicI64::new(0),
+            io_fail_at: std::sync::atomic::AtomicI64::new(-1),
+            io_fired: Mutex::new(None),
         });
         routinator::verif::install(handler.clone());
 
@@ -363,6 +387,7 @@ impl Sim {
             ta_files: BTreeMap::new(),
             corrupt_archive: false,
             store_fault_now: false,
+            last_io_calls: 0,
             diff_now: false,
             corrupt_now: false,
             force_ca: None,
@@ -639,7 +664,11 @@ impl Sim {
             let _ = std::fs::remove_dir_all(&diff_base);
             crate::engb::copy_dir(&self.scratch.join("cache"), &diff_base);
         }
+        self.handler.io_calls.store(0, std::sync::atomic::Ordering::SeqCst);
         let real = self.real_run(step);
+        self.last_io_calls = self.handler.io_calls.load(
+            std::sync::atomic::Ordering::SeqCst
+        );
         self.stats.steps += 1;
         if let (Some(before), Ok(_)) = (before.as_ref(), real.as_ref()) {
             self.check_cleanup(step, before, &state);
@@ -2845,8 +2874,18 @@ impl Sim {
         let tas: Vec<_> = files.iter().filter(|p| {
             p.strip_prefix(&base).map(|p| p.starts_with("ta")).unwrap_or(false)
         }).cloned().collect();
-        // The fault: a path the store needs cannot be read or written.
+        // The fault: a path the store needs cannot be read or written, or
+        // the n-th file operation of the run fails.
+        let io_fault = rng.chance(50, 100) && self.last_io_calls > 0;
         let what = match rng.below(10) {
+            _ if io_fault => {
+                let at = rng.below((self.last_io_calls as u64 * 11) / 10 + 1);
+                self.handler.io_fail_at.store(
+                    at as i64, std::sync::atomic::Ordering::SeqCst
+                );
+                format!("file operation {at} of the run fails (the previous \
+                    run performed {})", self.last_io_calls)
+            }
             0..=3 if !tas.is_empty() => {
                 let victim = rng.pick(&tas).clone();
                 let _ = std::fs::remove_file(&victim);
@@ -2871,7 +2910,21 @@ impl Sim {
         self.stats.fault("StoreFault");
         self.note(format!("step {step}: store fault: {what}"));
         self.ops.push(json!({"step": step, "op": "store-fault", "what": what}));
+        self.handler.io_calls.store(0, std::sync::atomic::Ordering::SeqCst);
+        *self.handler.io_fired.lock().unwrap() = None;
         let real = self.real_run(step);
+        self.handler.io_fail_at.store(-1, std::sync::atomic::Ordering::SeqCst);
+        let fired = self.handler.io_fired.lock().unwrap().take();
+        let what = match fired.as_ref() {
+            Some(site) => {
+                self.stats.probe(&format!("io-fault-at-{site}"));
+                format!("{what}: injected at {site}")
+            }
+            None => {
+                if io_fault { self.stats.probe("io-fault-not-reached"); }
+                what
+            }
+        };
         self.stats.steps += 1;
         match real {
             Err(msg) => {
